@@ -37,7 +37,8 @@ import (
 
 // srcExtractor is the extractor the exported packages claim to come from.
 type srcExtractor struct {
-	typ map[*extractor.Package]string // "" = no PURL
+	typ   map[*extractor.Package]string // "" = no PURL
+	shape map[*extractor.Package]*purl.PackageURL
 }
 
 func (srcExtractor) Name() string                       { return "src" }
@@ -53,6 +54,9 @@ func (e srcExtractor) ToPURL(p *extractor.Package) *purl.PackageURL {
 	t := e.typ[p]
 	if t == "" {
 		return nil
+	}
+	if u := e.shape[p]; u != nil {
+		return &purl.PackageURL{Type: t, Namespace: u.Namespace, Name: p.Name, Version: p.Version, Qualifiers: u.Qualifiers, Subpath: u.Subpath}
 	}
 	return &purl.PackageURL{Type: t, Name: p.Name, Version: p.Version}
 }
@@ -105,21 +109,74 @@ var verifReplacements = map[string]any{
 
 var purlTypes = []string{"", purl.TypeGeneric, purl.TypeNPM, purl.TypePyPi, purl.TypeDebian}
 
+// the types of the "shape" runs: those with a namespace or qualifiers in the built-in extractors
+var shapeTypes = []string{purl.TypeMaven, purl.TypeGolang, purl.TypeDebian, purl.TypeNPM, purl.TypeRPM}
+
+// every type purl.go declares (the "types" run): an exported URL of any of them is read back
+var allTypes = []string{purl.TypeAlpm, purl.TypeApk, purl.TypeBitbucket, purl.TypeBrew, purl.TypeCocoapods, purl.TypeCargo, purl.TypeComposer,
+	purl.TypeConan, purl.TypeConda, purl.TypeCOS, purl.TypeCran, purl.TypeDebian, purl.TypeDocker, purl.TypeFlatpak, purl.TypeGem, purl.TypeGeneric,
+	purl.TypeGithub, purl.TypeGolang, purl.TypeHackage, purl.TypeKernelModule, purl.TypeKernelVmlinuz, purl.TypeHaskell, purl.TypeMacApps,
+	purl.TypeHex, purl.TypeMaven, purl.TypeNix, purl.TypeNPM, purl.TypePacman, purl.TypeNuget, purl.TypeOCI, purl.TypeOpkg, purl.TypePub,
+	purl.TypePortage, purl.TypePyPi, purl.TypeRPM, purl.TypeSnap, purl.TypeSwift, purl.TypeGooget, purl.TypeWordpress}
+
+// shapeOf: the package URL gets, by choice, a namespace, a qualifier or a sub-path carrying one
+// arbitrary printable byte (characters that need escaping in the URL and in the file formats).
+func shapeOf() *purl.PackageURL {
+	b := verifrt.Byte("part")
+	verifrt.Assume(verifrt.And(b >= 0x21, b <= 0x7e))
+	v := "n" + string([]byte{b}) + "s"
+	switch verifrt.Choice("shape", 4) {
+	case 0:
+		return &purl.PackageURL{Namespace: v}
+	case 1:
+		return &purl.PackageURL{Qualifiers: purl.Qualifiers{{Key: purl.Arch, Value: v}}}
+	case 2:
+		return &purl.PackageURL{Subpath: v}
+	default:
+		return &purl.PackageURL{Namespace: v + "/m", Qualifiers: purl.Qualifiers{{Key: purl.Arch, Value: "x"}, {Key: purl.Distro, Value: v}}, Subpath: "a/" + v}
+	}
+}
+
 // inventoryOf builds n packages with a symbolic name byte each, a PURL type (or none) by choice.
 func inventoryOf(n int, spdxRules bool) (*scalibr.ScanResult, []string) {
-	ex := srcExtractor{typ: map[*extractor.Package]string{}}
+	ex := srcExtractor{typ: map[*extractor.Package]string{}, shape: map[*extractor.Package]*purl.PackageURL{}}
+	shaped := verifrt.Param("shaped") == 1
+	everyType := verifrt.Param("shaped") == 2
 	var pkgs []*extractor.Package
 	var want []string
 	for i := 0; i < n; i++ {
+		if i > 0 && !shaped && !everyType && verifrt.Choice("duplicate-of-first", 2) == 1 {
+			// the same package found a second time: same name, version and type, hence the same URL
+			p := &extractor.Package{Name: pkgs[0].Name, Version: pkgs[0].Version, Locations: []string{"c/d"}, Extractor: ex}
+			ex.typ[p] = ex.typ[pkgs[0]]
+			pkgs = append(pkgs, p)
+			if u := ex.ToPURL(p); u != nil && (p.Version != "" || !spdxRules) {
+				if parsed, err := purl.FromString(u.String()); err == nil {
+					want = append(want, parsed.String())
+				}
+			}
+			continue
+		}
 		b := verifrt.Byte("name")
 		verifrt.Assume(verifrt.And(b >= 0x21, b <= 0x7e))
 		p := &extractor.Package{Name: "p" + string([]byte{b}) + "x", Version: "1." + string(rune('0'+i)), Locations: []string{"a/b"}, Extractor: ex}
-		if i == 0 && verifrt.Choice("no-version", 2) == 1 {
+		if i == 0 && !everyType && verifrt.Choice("no-version", 2) == 1 {
 			// a package whose version is unknown: SPDX export leaves it out (a PURL without version
 			// is not written there), CycloneDX export writes it
 			p.Version = ""
 		}
-		ex.typ[p] = purlTypes[verifrt.Choice("purl-type", len(purlTypes))]
+		if everyType {
+			ex.typ[p] = allTypes[verifrt.Choice("purl-type", len(allTypes))]
+			if ex.typ[p] == purl.TypeSwift {
+				// the format requires a namespace for this type (the swift extractors always set one)
+				ex.shape[p] = &purl.PackageURL{Namespace: "ns"}
+			}
+		} else if shaped {
+			ex.typ[p] = shapeTypes[verifrt.Choice("purl-type", len(shapeTypes))]
+			ex.shape[p] = shapeOf()
+		} else {
+			ex.typ[p] = purlTypes[verifrt.Choice("purl-type", len(purlTypes))]
+		}
 		pkgs = append(pkgs, p)
 		if u := ex.ToPURL(p); u != nil {
 			// what a reader of the printed PURL is entitled to see: the PURL as normalised for its type
